@@ -4,11 +4,86 @@ import BlockCiphers.Proofs.DesCompl
 import BlockCiphers.Proofs.DesSpecPerm
 import BlockCiphers.Proofs.DesSpecSbox
 import BlockCiphers.Proofs.DesPermute
+import BlockCiphers.Proofs.GenFuncsDes
 /-
 C05 — DES and Triple-DES conform to FIPS 46-3 / SP 800-67 and their key relations
 GENERATED statement file (tools/gen_thm.py): every theorem below restates, verbatim, a theorem of a Proofs/ module
 and is proved by applying it.  ONLY property theorems and non-vacuity examples live in Thm/.
 -/
+
+namespace BC.GenFuncs.Des
+open BC.Gen.Fn
+theorem C05.src_des_pc1_eq (x : BitVec 64) : des_pc1 x = BC.Des.pc1 x :=
+  _root_.BC.GenFuncs.Des.pc1_eq x
+end BC.GenFuncs.Des
+
+namespace BC.GenFuncs.Des
+open BC.Gen.Fn
+theorem C05.src_des_pc2_eq (x : BitVec 64) : des_pc2 x = BC.Des.pc2 x :=
+  _root_.BC.GenFuncs.Des.pc2_eq x
+end BC.GenFuncs.Des
+
+namespace BC.GenFuncs.Des
+open BC.Gen.Fn
+theorem C05.src_des_fp_eq (x : BitVec 64) : des_fp x = BC.Des.fp x :=
+  _root_.BC.GenFuncs.Des.fp_eq x
+end BC.GenFuncs.Des
+
+namespace BC.GenFuncs.Des
+open BC.Gen.Fn
+theorem C05.src_des_ip_eq (x : BitVec 64) : des_ip x = BC.Des.ip x :=
+  _root_.BC.GenFuncs.Des.ip_eq x
+end BC.GenFuncs.Des
+
+namespace BC.GenFuncs.Des
+open BC.Gen.Fn
+theorem C05.src_des_e_eq (x : BitVec 64) : des_e x = BC.Des.e x :=
+  _root_.BC.GenFuncs.Des.e_eq x
+end BC.GenFuncs.Des
+
+namespace BC.GenFuncs.Des
+open BC.Gen.Fn
+theorem C05.src_des_p_eq (x : BitVec 64) : des_p x = BC.Des.p x :=
+  _root_.BC.GenFuncs.Des.p_eq x
+end BC.GenFuncs.Des
+
+namespace BC.GenFuncs.Des
+open BC.Gen.Fn
+theorem C05.src_des_sbox_entry : ∀ i : Fin 8, ∀ n : Fin 64,
+    BC.Gen.tblAt BC.Gen.des_SBOXES (64 * i.val + n.val) 8 = (BC.Des.SBOXES.getD i.val #[]).getD n.val 0#8 :=
+  _root_.BC.GenFuncs.Des.sbox_entry
+end BC.GenFuncs.Des
+
+namespace BC.GenFuncs.Des
+open BC.Gen.Fn
+theorem C05.src_des_mask_lt (v : BitVec 64) : (v &&& 0x3f#64).toNat < 64 :=
+  _root_.BC.GenFuncs.Des.mask_lt v
+end BC.GenFuncs.Des
+
+namespace BC.GenFuncs.Des
+open BC.Gen.Fn
+theorem C05.src_des_sbox_at (i : Nat) (hi : i < 8) (v : BitVec 64) :
+    (BC.Gen.tblAt BC.Gen.des_SBOXES (64 * i + (v &&& 0x3f#64).toNat) 8).setWidth 64 = BC.Des.sboxAt i (v &&& 0x3f#64) :=
+  _root_.BC.GenFuncs.Des.sbox_at i hi v
+end BC.GenFuncs.Des
+
+namespace BC.GenFuncs.Des
+open BC.Gen.Fn
+theorem C05.src_des_apply_sboxes_eq (x : BitVec 64) : des_apply_sboxes x = BC.Des.applySboxes x :=
+  _root_.BC.GenFuncs.Des.apply_sboxes_eq x
+end BC.GenFuncs.Des
+
+namespace BC.GenFuncs.Des
+open BC.Gen.Fn
+theorem C05.src_des_f_eq (x k : BitVec 64) : des_f x k = BC.Des.f x k :=
+  _root_.BC.GenFuncs.Des.f_eq x k
+end BC.GenFuncs.Des
+
+namespace BC.GenFuncs.Des
+open BC.Gen.Fn
+theorem C05.src_des_round_eq (x k : BitVec 64) : des_round x k = BC.Des.round x k :=
+  _root_.BC.GenFuncs.Des.round_eq x k
+end BC.GenFuncs.Des
 
 namespace BC.GenTables
 open BC.Gen
